@@ -74,6 +74,13 @@ def gen_cases(tier, seed):
         if vs == 'epoch':
             tmin = 1700000000
             tmax = r.choice(['inf', 'inf', tmin + 4, tmin + 7])
+        if tmin == 0 and tmax != 0 and vs != 'epoch' and r.random() < 0.25:
+            # the same rule tables in another time unit (nanoseconds ... years); the horizon is scaled with them
+            unit = r.choice([1e-10, 1e-13, 1e7])
+            dur = [x * unit for x in dur]
+            dl = {kk: x * unit for kk, x in dl.items()}
+            if tmax != 'inf':
+                tmax = tmin + (tmax - tmin) * unit
         out.append({'kind': kinds[k % len(kinds)], 'graph': desc, 'vs': vs, 'dur': ['inf' if x == INF else x for x in dur],
                     'delay': {kk: ('inf' if x == INF else x) for kk, x in dl.items()}, 'I0': I0, 'R0': R0, 'tmin': tmin, 'tmax': tmax,
                     'form': r.choice(['sep', 'joint']), 'full': r.random() < 0.6, 'seed': cs,
